@@ -23,7 +23,8 @@ Record e2e_rcv := mkE2E {
   e2e_buf : Z;                     (* maxReceiveBufferSize *)
   e2e_maxent : Z;                  (* maxReassemblyQueueEntries *)
   e2e_il : bool;                   (* useInterleaving *)
-  e2e_abort : bool                 (* abortProtocolViolation was called (ABORT will be sent) *)
+  e2e_abort : bool;                (* abortProtocolViolation was called (ABORT will be sent) *)
+  e2e_detached : list rq           (* a.detachedStreams (243f816): streams reset by the peer that still held unread data *)
 }.
 
 Fixpoint e2e_get (sid : Z) (l : list (Z * rq)) : option rq :=
@@ -41,8 +42,8 @@ Fixpoint e2e_put (sid : Z) (q : rq) (l : list (Z * rq)) : list (Z * rq) :=
                    else (k, x) :: e2e_put sid q t
   end.
 
-Definition e2e_credit (buf : Z) (streams : list (Z * rq)) : Z :=
-  rq_a_rwnd buf (map (fun p => rq_nbytes (snd p)) streams).
+Definition e2e_credit (buf : Z) (streams : list (Z * rq)) (detached : list rq) : Z :=
+  rq_credit buf (map snd streams) detached.
 
 (* for { if !payloadQueue.pop(false) { break } ... } *)
 Fixpoint e2e_pop_loop (fuel : nat) (q : rpq) : rpq :=
@@ -54,7 +55,7 @@ Fixpoint e2e_pop_loop (fuel : nat) (q : rpq) : rpq :=
 Definition e2e_pops (q : rpq) : rpq := e2e_pop_loop (S (Z.to_nat (size q))) q.
 
 Definition e2e_set (st : e2e_rcv) (pq : rpq) (streams : list (Z * rq)) (ab : bool) : e2e_rcv :=
-  mkE2E pq streams (e2e_buf st) (e2e_maxent st) (e2e_il st) ab.
+  mkE2E pq streams (e2e_buf st) (e2e_maxent st) (e2e_il st) ab (e2e_detached st).
 
 (* what happened to the chunk, for the correspondence and the ghost history *)
 Inductive e2e_out :=
@@ -78,7 +79,7 @@ Definition e2e_recv_data (st : e2e_rcv) (c : rqchunk) (accept_ok : bool) : e2e_r
              end) with
       | None => (st, EoNoStream)
       | Some (q, streams1) =>
-          if rq_admit (e2e_credit (e2e_buf st) streams1) (last_tsn_received pq) (rqc_tsn c) then
+          if rq_admit (e2e_credit (e2e_buf st) streams1 (e2e_detached st)) (last_tsn_received pq) (rqc_tsn c) then
             let pq1 := fst (push pq (rqc_tsn c)) in
             let '(q', r) := rq_push q c in
             let streams2 := e2e_put (rqc_si c) q' streams1 in
@@ -100,8 +101,43 @@ Definition e2e_read (st : e2e_rcv) (sid buflen : Z) : e2e_rcv * rq_rd :=
       (e2e_set st (e2e_pq st) (e2e_put sid q' (e2e_streams st)) (e2e_abort st), r)
   end.
 
+(* resetStreamsIfAny for one stream identifier (the reset is performed: senderLastTSN <= cumulative TSN):
+   the stream leaves the map; if its queue still holds bytes it is remembered as detached *)
+Fixpoint e2e_del (sid : Z) (l : list (Z * rq)) : list (Z * rq) :=
+  match l with
+  | [] => []
+  | (k, q) :: t => if k =? sid then t else (k, q) :: e2e_del sid t
+  end.
+
+Definition e2e_reset (st : e2e_rcv) (sid : Z) : e2e_rcv :=
+  match e2e_get sid (e2e_streams st) with
+  | None => st
+  | Some q => mkE2E (e2e_pq st) (e2e_del sid (e2e_streams st)) (e2e_buf st) (e2e_maxent st) (e2e_il st)
+                    (e2e_abort st) (rq_detach q (e2e_detached st))
+  end.
+
+(* the application reads on the Stream object of a detached stream (the n-th of the list) *)
+Fixpoint e2e_upd_nth (n : nat) (q : rq) (l : list rq) : list rq :=
+  match l, n with
+  | [], _ => []
+  | _ :: t, O => q :: t
+  | x :: t, S m => x :: e2e_upd_nth m q t
+  end.
+
+Definition e2e_read_detached (st : e2e_rcv) (n : nat) (buflen : Z) : e2e_rcv * rq_rd :=
+  match nth_error (e2e_detached st) n with
+  | None => (st, RdTryAgain)
+  | Some q =>
+      let '(q', r) := rq_read q buflen in
+      (mkE2E (e2e_pq st) (e2e_streams st) (e2e_buf st) (e2e_maxent st) (e2e_il st) (e2e_abort st)
+             (e2e_upd_nth n q' (e2e_detached st)), r)
+  end.
+
+(* the window a SACK advertises *)
+Definition e2e_a_rwnd (st : e2e_rcv) : Z := e2e_credit (e2e_buf st) (e2e_streams st) (e2e_detached st).
+
 Definition e2e_new (peer_tsn buf maxent : Z) (il : bool) : e2e_rcv :=
-  mkE2E (rpq_init (rpq_new (getMaxTSNOffset buf)) (wrap32 (peer_tsn - 1))) [] buf maxent il false.
+  mkE2E (rpq_init (rpq_new (getMaxTSNOffset buf)) (wrap32 (peer_tsn - 1))) [] buf maxent il false [].
 
 (* ------------------------------------------------------------------------------------------ *)
 (* sender universe                                                                              *)
